@@ -310,7 +310,11 @@ def check(cfg, argv):
         bad = forbidden_scan()
         if bad:
             broken.append(("forbidden tokens in the Coq development", "\n".join(bad)))
-        _, out0 = coq_make(["-k"])          # whole development, keep going: unrelated breakage must not matter here
+        # only what this property needs is (re)built: its property file with everything below it, and (in build_model)
+        # the theories its extraction imports.  VERIF_MAKE_ALL=1 builds the whole development first (keep going).
+        out0 = ""
+        if os.environ.get("VERIF_MAKE_ALL") == "1":
+            _, out0 = coq_make(["-k"])
         ok, out = coq_make(cfg.get("props_target", ["props/%s.vo" % prop]))
         open(os.path.join(d, "coq_make.log"), "w").write(out0 + "\n=====\n" + out)
         if ok:
